@@ -1198,6 +1198,8 @@ impl Vm {
         self.active_fiber_mut().frames.pop();
         if self.active_fiber().has_finished() {
             if self.active_fiber().caller.is_some() {
+                // The finished fiber's stack slots (its closure, arguments, ...) are dead now.
+                self.active_fiber_mut().stack.truncate(prev_stack_size);
                 self.unload_fiber(None)?;
                 self.poke(0, result);
                 return Ok(None);
